@@ -302,6 +302,10 @@ func (eng *Engine) buildIntercepts() {
 		return ex.opaqueError("wrap")
 	}
 	ic["github.com/pkg/errors.Wrapf"] = ic["github.com/pkg/errors.Wrap"]
+	// like Wrap, these return nil for a nil error
+	for _, n := range []string{"WithStack", "WithMessage", "WithMessagef"} {
+		ic["github.com/pkg/errors."+n] = ic["github.com/pkg/errors.Wrap"]
+	}
 	for _, n := range []string{"fmt.Println", "fmt.Printf", "fmt.Print", "runtime/debug.PrintStack"} {
 		ic[n] = retNothing
 	}
